@@ -40,6 +40,8 @@ type progGen struct {
 	usedEff bool
 	noFail  bool
 	decls   bool // allow declaration forms (C04)
+	haveThunkMaker bool
+	thunks         []string
 	// swarm weights
 	w []int
 }
@@ -397,7 +399,7 @@ func contains(xs []string, s string) bool {
 func (g *progGen) topForm() vmForm {
 	g.eff = false
 	g.locals = nil
-	w := []int{5, 4, 3, 2, 2, 1, 2, 1, 2, 1, 1}
+	w := []int{5, 4, 3, 2, 2, 1, 2, 1, 2, 1, 1, 2}
 	if g.noFail {
 		w[6] = 0
 	}
@@ -489,6 +491,11 @@ func (g *progGen) topForm() vmForm {
 		return vmForm{Text: g.failingForm(), Fail: true}
 	case 7: // macro definition (closed template over its argument and literals)
 		name := fmt.Sprintf("m%d", g.r.Intn(2))
+		if contains(g.macros, name) {
+			// a macro is defined at most once per program: calls in argument position are expanded when the
+			// call runs, so a redefinition later in the same text would legitimately depend on grouping
+			return vmForm{Text: g.e(0), Eff: g.eff}
+		}
 		tmpl := g.r.Pick([]string{"^(+ ~x 1)", "^(let [t ~x] (* t 2))", "^(cond (< ~x 3) ~x 0)", "^(begin ~x ~x)", "^(+ ~@(list x 1))"})
 		text = fmt.Sprintf("(defmac %s [x] %s)", name, tmpl)
 		if !contains(g.macros, name) {
@@ -514,6 +521,25 @@ func (g *progGen) topForm() vmForm {
 		}
 	case 10:
 		text = g.declForm()
+	case 11:
+		// a lazily bound argument that outlives the call: captured by a closure kept in a global and forced
+		// by later forms (its memo is state that a failed force must not corrupt)
+		if !g.haveThunkMaker {
+			g.haveThunkMaker = true
+			text = "(defn lzmk [#a] (fn [] (force #a)))"
+			break
+		}
+		if len(g.thunks) == 0 || g.r.Chance(0.4) {
+			name := fmt.Sprintf("t%d", g.r.Intn(3))
+			text = fmt.Sprintf("(def %s (lzmk %s))", name, g.e(1))
+			if !contains(g.thunks, name) {
+				g.thunks = append(g.thunks, name)
+			}
+			break
+		}
+		th := g.thunks[g.r.Intn(len(g.thunks))]
+		text = g.r.Pick([]string{"(%s)", "(+ 1 (%s))", "(let [q (%s)] (+ q q))", "(for [(def i 0) (< i 2) (def i (+ i 1))] (%s))"})
+		text = fmt.Sprintf(text, th)
 	}
 	return vmForm{Text: text, Eff: g.eff}
 }
@@ -531,6 +557,25 @@ var declForms = []string{
 	"(def hh%d (hash a: 1)) {for k, v := range hh%d { zz%d = v }}",
 	"(method [p: (* Dog0)] bark%d [a:int64] [n:int64])",
 	"(defmap ranch%d)",
+	// declare-and-use: the declared thing is exercised in statement position
+	"(func fu%d [a:int64 b:int64] [n:int64] (return (+ a b))) (fu%d b:40 a:2)",
+	"(func fu%d [a:int64 b:int64] [n:int64] (return (+ a b))) (fu%d 1 2) (+ 1 (fu%d a:3 b:4))",
+	"(func fs%d [a:int64] [n:int64 e:error] (return a nil)) (fs%d a:5)",
+	"(struct Pup%d [(field Name: string e:0) (field Num: int64 e:1)]) (def pp%d (Pup%d Name: \"r\")) (hset pp%d Num: 3) pp%d.Name",
+	"(struct Pup%d [(field Num: int64 e:0)]) (def pq%d (Pup%d Num: 1)) {pq%d.Num = 7} (:Num pq%d)",
+	"(def pc%d (package \"pc\" { (defn Cnt [n acc] (cond (<= n 0) acc (Cnt (- n 1) (+ acc 1)))) })) (pc%d.Cnt 3 0)",
+	"(var vv%d int64) (set vv%d 5) vv%d",
+	"(defmap farm%d) (def fr%d (farm%d a: 1 b: 2)) (:a fr%d)",
+	"(aa%d bb%d = 1 2)",
+	"(mdef ma%d mb%d (list 1 2)) ma%d",
+	"{ ia%d = 1; ib%d = ia%d + 2 }",
+	"(def cl%d (let [k 2] (fn [x] (+ x k)))) (cl%d 1) (map cl%d [1 2])",
+	"(defn tr%d [n] (let [m (- n 1)] (cond (> n 0) (tr%d m) n))) (tr%d 4)",
+	"(for [(def i 0) (< i 3) (def i (+ i 1))] (let [x i] (cond (> x 1) (break) 0)))",
+	"(def ar%d [1 2 3]) { ar%d[1] = 9 } (aget ar%d 1)",
+	"(def st%d \"abc\") (len (concat st%d \"d\"))",
+	"(macexpand (++ zc%d))",
+	"(def zc%d 1) (++ zc%d) (+= zc%d 2) zc%d",
 }
 
 func (g *progGen) declForm() string {
